@@ -3,7 +3,7 @@ from . import common as C
 from .gens import *
 
 PROP = "C03"
-LEAN_MODULE = "RSV.Props.C03"
+LEAN_MODULE = "RSV.Props.C03all"
 RULE = ("proof: the generator each option builds is the published closed form for all (d,p) (C03_default_entry: Lagrange/"
         "Backblaze, C03_cauchy_entry 1/(i xor j), C03_par1_entry, C03_xor_entry, top square = identity), encodeSpec is column-local "
         "and linear (C03_local, C03_linear); tables = field (C17). Correspondence: generator identity through Encode of unit "
